@@ -19,8 +19,11 @@ import (
 
 func TestMain(m *testing.M) { lib.Main(m) }
 
-// nTuples is the number of operand tuples per field and op group.
-func nTuples() int { return lib.Scale(20000, 2000000) }
+// nTuples is the number of operand tuples per field and op group for the
+// assembly-backed byte-array fields; nTuplesGo the one for the pure-Go /
+// math/big backed types (one back-end only, costlier oracle).
+func nTuples() int   { return lib.Scale(20000, 2000000) }
+func nTuplesGo() int { return lib.Scale(20000, 500000) }
 
 const chunk = 256
 
